@@ -95,13 +95,17 @@ def main():
     sym_names = [n for n, o in obs.items() if o.kind != "crosshair" and (only is None or n in only)]
     ch_names = [n for n, o in obs.items() if o.kind == "crosshair" and (only is None or n in only)]
     results = []
+    known = load_known()
+
+    def is_known(v):
+        return any(matches(e, pid, v) for e in known["findings"])
+
     if sym_names:
-        results += explore.run_obligations(modname, args.tier, only=set(sym_names))
+        results += explore.run_obligations(modname, args.tier, only=set(sym_names), is_known=is_known)
     if ch_names:
         from bvsym import chrun
         results += chrun.run(modname, args.tier, [obs[n] for n in ch_names])
 
-    known = load_known()
     exit_code = 0
     viol_lines, known_lines, problems = [], [], []
     n_viol = 0
@@ -113,8 +117,15 @@ def main():
             key = (v["obligation"], v["label"], json.dumps(v.get("info", {}), sort_keys=True))
             per_label.setdefault(key, []).append(v)
         r["violation_labels"] = []
-        for key, vs in per_label.items():
+        replayed = 0
+        # counterexamples that match no known finding are replayed first (the cap must never hide a new one)
+        for key, vs in sorted(per_label.items(), key=lambda kv: is_known(kv[1][0])):
             v = vs[0]
+            if replayed >= 8 and ob.kind != "crosshair":
+                r["violation_labels"].append({"label": v["label"], "info": v.get("info", {}), "count_paths": len(vs),
+                                              "status": "not-replayed (cap of 8 replays per obligation)"})
+                continue
+            replayed += 1
             if ob.kind == "crosshair":
                 path, rc, out = v["replay_path"], v["replay_rc"], v.get("replay_out", "")
             else:
@@ -143,7 +154,8 @@ def main():
         del r["violations"]
         if r["verdict"] == "inconclusive" and r["required"]:
             problems.append("required obligation %s inconclusive: %s" % (r["name"], "; ".join(r["reasons"])))
-        if r["verdict"] == "violated" and all(x["status"] == "known-finding" for x in r["violation_labels"]):
+        if r["verdict"] == "violated" and all(x["status"] in ("known-finding",) or x["status"].startswith("not-replayed") for x in r["violation_labels"]) \
+                and any(x["status"] == "known-finding" for x in r["violation_labels"]):
             r["verdict"] = "known-finding" + (" (+inconclusive)" if r["reasons"] else "")
             if r["reasons"] and r["required"]:
                 problems.append("required obligation %s inconclusive: %s" % (r["name"], "; ".join(r["reasons"])))
